@@ -180,10 +180,13 @@ Print Assumptions C09_big_number_refuted.
 
 (* ====== ties to the source: BEGIN (written by bin/mkties) ====== *)
 (* The Go functions named here are translated into Gallina from /repo's source on every run
-   (tools/gen/code.go -> Gen/Code/<Eco>.v); Tie/<Eco>.v, Tie/<Eco>Range.v prove each translation equal to the
-   model the theorems above speak about.  If the code changes so that a tie no longer holds,
-   this file no longer checks. *)
-From Verif.Tie Require Pypi.
+   (tools/gen -> Gen/Code/<Eco>.v for loop-free functions, Gen/Loops/<Eco>.v for functions with
+   loops and index expressions, where a panic is Panic and a loop takes fuel); Tie/<Eco>.v,
+   Tie/<Eco>Range.v and Tie/Loops/<Eco>.v prove each translation equal to the model the theorems
+   above speak about (and, for the loop functions: no panic, termination within a linear bound).
+   If the code changes so that a tie no longer holds, this file no longer checks. *)
+Require Verif.Tie.Pypi.
+Require Verif.Tie.Loops.Pypi.
 Definition C09_tie_pypi_compareInt := Verif.Tie.Pypi.tie_pypi_compareInt.
 Print Assumptions C09_tie_pypi_compareInt.
 Definition C09_tie_pypi_normalizePrereleaseType := Verif.Tie.Pypi.tie_pypi_normalizePrereleaseType.
@@ -196,4 +199,10 @@ Definition C09_tie_pypi_compareDevReleases := Verif.Tie.Pypi.tie_pypi_compareDev
 Print Assumptions C09_tie_pypi_compareDevReleases.
 Definition C09_tie_pypi_Version_Compare := Verif.Tie.Pypi.tie_pypi_Version_Compare.
 Print Assumptions C09_tie_pypi_Version_Compare.
+Definition C09_tie_loops_pypi_compareReleaseVersions := Verif.Tie.Loops.Pypi.tie_loops_pypi_compareReleaseVersions.
+Print Assumptions C09_tie_loops_pypi_compareReleaseVersions.
+Definition C09_tie_compareReleaseVersions_total_model := Verif.Tie.Loops.Pypi.compareReleaseVersions_total_model.
+Print Assumptions C09_tie_compareReleaseVersions_total_model.
+Definition C09_tie_pypi_compare_closed := Verif.Tie.Loops.Pypi.tie_pypi_compare_closed.
+Print Assumptions C09_tie_pypi_compare_closed.
 (* ====== ties to the source: END ====== *)
